@@ -68,7 +68,7 @@ def cases(tier, seed):
         ins = [addcols(px, ncols, rng, 9) for px in ins]
         order = list(range(k))
         rng.shuffle(order)
-        case = {"table": table, "mode": mode, "inputs": ins, "cols": cols, "aggs": aggs, "bits": 32,
+        case = {"table": table, "mode": mode, "inputs": ins, "cols": cols, "aggs": aggs, "bits": 32, "unsigned": False,
                 "buf": rng.choice([1, 2, 3, 5, 10 ** 6]), "order": order}
         if h % 6 == 2 and k >= 2:
             # inputs of different integer widths, the narrower first: the output type must accommodate all of them
@@ -83,9 +83,10 @@ def cases(tier, seed):
             case["via"] = "cli"
         yield "mg.merge", case
     # (3) values near the limits of the value dtype: the exact aggregate or an error, never something else
-    for h in range(40 if tier == "quick" else 400):
+    for h in range(60 if tier == "quick" else 600):
         bits = [8, 16][h % 2]
-        hi = 2 ** (bits - 1) - 1
+        unsigned = h % 3 == 2
+        hi = (2 ** bits - 1) if unsigned else (2 ** (bits - 1) - 1)
         k = rng.randint(2, 3)
         table = T["one_fixed"]
         ins = []
@@ -93,7 +94,7 @@ def cases(tier, seed):
             px = gen.random_store(rng, 3, "symm", density=0.8, maxval=1)
             ins.append([[i, j, rng.choice([1, hi // 2, hi // 2 + 1, hi - 1, hi])] for i, j, _ in px])
         yield "mg.merge", {"table": table, "mode": "symm", "inputs": ins, "cols": ["count"], "aggs": ["sum"], "bits": bits,
-                           "buf": rng.choice([1, 3, 10 ** 6]), "order": list(range(k))}
+                           "unsigned": unsigned, "buf": rng.choice([1, 3, 10 ** 6]), "order": list(range(k))}
     # (4) incompatible inputs of every kind
     base = T["two_fixed"]
     nm2 = ["a", "b", "c", "d", "e"]
@@ -107,6 +108,9 @@ def cases(tier, seed):
         "fixed_vs_variable": ([gen.binnify([4, 5], 2), gen.table_from_edges([[0, 1, 4], [0, 3, 5]])], ["symm", "symm"], [nm2, nm2]),
         "variable_vs_fixed": ([gen.table_from_edges([[0, 1, 4], [0, 3, 5]]), gen.binnify([4, 5], 2)], ["square", "square"], [nm2, nm2]),
         "third_differs": ([base, base, gen.binnify([4, 4], 4)], ["symm", "symm", "symm"], [nm2, nm2, nm2]),
+        # same names and lengths, listed in a different order: different bin tables
+        "chrom_order": ([gen.binnify([4, 6], 2), gen.binnify([6, 4], 2)], ["symm", "symm"], [["a", "b", "c"], ["b", "a", "c"]]),
+        "chrom_names": ([base, base], ["symm", "symm"], [["a", "b", "c"], ["a", "x", "c"]]),
     }
     for kind, (tables, modes, nms) in kinds.items():
         for buf in (1, 10 ** 6):
